@@ -13,6 +13,9 @@ open StepupModel.P.Like StepupModel.Generated
 /-- Obligation on the regenerated table: LIKE compares case sensitively on StepUp connections. -/
 theorem like_is_case_sensitive : Sqlite.likeCaseSensitive = true := by decide
 
+/-- The same on the read-only connections that `stepup clean` and the other tools open. -/
+theorem like_is_case_sensitive_read_only : Sqlite.likeCaseSensitiveReadOnly = true := by decide
+
 /-- `prefix_clause`: the escaped pattern followed by `%` is a byte-exact prefix test,
 whatever `%`, `_`, `\` or non-ASCII characters the prefix contains. -/
 theorem like_prefix_exact (d s : Str) : likePrefix true d s = true ↔ d <+: s := by
@@ -90,9 +93,9 @@ theorem site_range (dir : Str) (labels : List Str) (l : Str) :
     · rintro ⟨h1, _, h2⟩; exact ⟨h1, h2⟩
 
 theorem site_clean_matching (arg : Str) (labels : List Str) (l : Str) :
-    l ∈ cleanMatching Sqlite.likeCaseSensitive arg labels ↔
+    l ∈ cleanMatching Sqlite.likeCaseSensitiveReadOnly arg labels ↔
       l ∈ labels ∧ (l = arg ∨ addSlash arg <+: l) := by
-  rw [like_is_case_sensitive]; simp [cleanMatching, like_prefix_exact]
+  rw [like_is_case_sensitive_read_only]; simp [cleanMatching, like_prefix_exact]
 
 theorem site_inside_tree (trees : List Str) (path : Str) :
     insideTree trees path = true ↔ ∃ t ∈ trees, t <+: ensureSlash path := by
